@@ -25,6 +25,7 @@ type Clause struct {
 	Name  string // entry name
 	Props []string
 	Line  string // file:line of the contract comment
+	LockInv bool // lock invariant: not part of the caller-visible contract
 
 	compiled bool
 	err      error
@@ -98,6 +99,11 @@ type LockDir struct {
 	Pos     string
 }
 
+// countedCalls: the call counters named by calls("...") anywhere in the contracts; only these are maintained for
+// concrete (non-interface) callees, keyed "<ReceiverType>.<Method>" or "<pkg>.<Func>".
+var countedCalls = map[string]bool{}
+var reCalls = regexp.MustCompile(`calls\("([^"]+)"\)`)
+
 var externDirs = map[string][]*ExternDir{}
 var lockDirs = map[string][]*LockDir{}
 
@@ -120,6 +126,11 @@ func parseContractFile(fset *token.FileSet, f *ast.File, pkgPath string) ([]*Con
 				text string
 				pos  string
 			}{strings.TrimSpace(t[3:]), fmt.Sprintf("%s:%d", strings.TrimPrefix(p.Filename, "/repo/"), p.Line)})
+		}
+	}
+	for _, ln := range lines {
+		for _, m := range reCalls.FindAllStringSubmatch(ln.text, -1) {
+			countedCalls[m[1]] = true
 		}
 	}
 	var cons []*Contract
@@ -322,6 +333,17 @@ func parseContractFile(fset *token.FileSet, f *ast.File, pkgPath string) ([]*Con
 			cur.Requires = append(cur.Requires, mk("requires", rest))
 		case "ensures":
 			cur.Ensures = append(cur.Ensures, mk("ensures", rest))
+		case "lockinv":
+			// invariant of lock-guarded state: assumed when the function starts (it holds whenever the lock is free, and the
+			// function touches the guarded state only inside its critical section), proved when it returns; callers neither
+			// owe it nor learn it
+			r := mk("requires", rest)
+			r.LockInv = true
+			cur.Requires = append(cur.Requires, r)
+			e := mk("ensures", "lockinv: "+rest)
+			e.LockInv = true
+			cur.Ensures = append(cur.Ensures, e)
+			last = nil
 		case "modifies":
 			c := &Clause{Kind: "modifies", Text: rest, Line: ln.pos}
 			last = c
@@ -343,10 +365,17 @@ func parseContractFile(fset *token.FileSet, f *ast.File, pkgPath string) ([]*Con
 			cur.Entries = append(cur.Entries, c)
 		case "loop":
 			parts := strings.SplitN(rest, " ", 3)
-			if len(parts) < 3 || (parts[1] != "invariant" && parts[1] != "decreases") {
-				return nil, nil, fmt.Errorf("%s: loop <ord> invariant|decreases <expr>", ln.pos)
+			if len(parts) < 3 || (parts[1] != "invariant" && parts[1] != "decreases" && parts[1] != "iterensures") {
+				return nil, nil, fmt.Errorf("%s: loop <ord> invariant|decreases|iterensures <expr>", ln.pos)
 			}
 			c := &Clause{Kind: parts[1], Ord: parts[0], Text: strings.TrimSpace(parts[2]), Line: ln.pos}
+			if parts[1] == "iterensures" {
+				// iteration postcondition "label: expr": holds at the end of every iteration; prev(e) is the value of e at
+				// the head of that iteration
+				if m := reLabel.FindStringSubmatch(c.Text); m != nil {
+					c.Label, c.Text = m[1], m[2]
+				}
+			}
 			last = c
 			cur.Loops[parts[0]] = append(cur.Loops[parts[0]], c)
 		case "go":
@@ -772,7 +801,7 @@ func (vc *VC) compileClause(fi *FuncInfo, c *Clause) {
 				}
 			}
 		}
-	} else if c.Kind == "invariant" || c.Kind == "decreases" {
+	} else if c.Kind == "invariant" || c.Kind == "decreases" || c.Kind == "iterensures" {
 		loop := vc.findLoop(fi, c.Ord)
 		if loop == nil {
 			fail("no loop with ordinal %s in %s", c.Ord, fi.Short)
@@ -1027,6 +1056,24 @@ func (ex *Exec) evalSpecFunc(name string, call *ast.CallExpr, st *State) []Value
 			}
 		}
 		return []Value{ex.eval(call.Args[0], o)}
+	case "prev":
+		if ex.loopHead == nil {
+			unsupp("prev() outside an iteration postcondition")
+		}
+		{
+			o := ex.loopHead.clone()
+			for obj, v := range st.env {
+				if _, has := o.env[obj]; !has {
+					o.env[obj] = v
+				}
+			}
+			for _, obj := range ex.boundObjs {
+				if v, ok := st.env[obj]; ok {
+					o.env[obj] = v
+				}
+			}
+			return []Value{ex.eval(call.Args[0], o)}
+		}
 	case "before":
 		if ex.loopEntry == nil {
 			unsupp("before() outside a loop invariant")
@@ -1130,6 +1177,14 @@ func (ex *Exec) evalSpecFunc(name string, call *ast.CallExpr, st *State) []Value
 			pats = append(pats, []*Term{t})
 		}
 		return []Value{boolV(mkQuant("forall", []*Term{bv}, full, pats...))}
+	case "lastpkt", "lastsent":
+		g, ok := st.ghost["net."+name]
+		if !ok {
+			g = namedValue("ghost|net."+name+"0", types.NewSlice(types.Typ[types.Byte]))
+			st.assumeValid(g)
+			st.ghost["net."+name] = g
+		}
+		return []Value{g}
 	case "hastype":
 		x := ex.eval(call.Args[0], st)
 		tt := ex.info().TypeOf(call.Args[1])
